@@ -97,3 +97,18 @@ Print Assumptions C17_time_later_is_greater.
 Theorem C17_from_time_is_date_notation : forall secs : Z, serial_of_time secs = timestamp_of_secs secs.
 Proof. exact from_time_is_date_notation. Qed.
 Print Assumptions C17_from_time_is_date_notation.
+
+Theorem C17_commit_bump_is_newer : forall old, u32 old ->
+  commit_serial old None = Ok ((old + 1) mod M32) /\
+  serial_partial_cmp old ((old + 1) mod M32) = Ok (Some Lt).
+Proof. exact commit_bump_newer. Qed.
+Print Assumptions C17_commit_bump_is_newer.
+
+Theorem C17_commit_same_soa_bumps : forall old, u32 old ->
+  commit_serial old (Some old) = Ok ((old + 1) mod M32).
+Proof. exact commit_same_soa_bumps. Qed.
+Print Assumptions C17_commit_same_soa_bumps.
+
+Theorem C17_commit_keeps_written_soa : forall old z, z <> old -> commit_serial old (Some z) = Ok z.
+Proof. exact commit_keeps_written_soa. Qed.
+Print Assumptions C17_commit_keeps_written_soa.
